@@ -31,7 +31,7 @@ ASSUMPTIONS = []
 BUDGET = {'quick': 40.0, 'thorough': 120.0}
 
 PREFIXES = (None, '', 'a', 'a.b')
-FORMS = (('add',), ('addname', 'a'), ('addname', 'f'), ('addname', 'a.f'), ('addname', ''), ('addfn',), ('addfn2',), ('method',),
+FORMS = (('add',), ('addname', '_p'), ('addname', 'a._q'), ('add_',), ('addname', 'a'), ('addname', 'f'), ('addname', 'a.f'), ('addname', ''), ('addfn',), ('addfn2',), ('method',),
          ('view', None), ('view', 'v'), ('view', 'a'), ('viewx', None), ('viewx', 'v'))
 HOPS = ('add', 'addname_f', 'addname_g', 'addfn', 'addfn2', 'view', 'viewp', 'dup')
 SHOPS = ('sadd', 'saddname', 'saddfn', 'sview', 'sviewp')      # the SAME function / view class registered again
@@ -178,6 +178,9 @@ def h_chain(ob):
         if form[0] == 'add':
             inner.add(_fn('f', 'T-f', is_async))
             ref[_join(*chain, 'f')] = 'T-f'
+        elif form[0] == 'add_':          # a plain function whose OWN name starts with an underscore: registered, hence reachable
+            inner.add(_fn('_f', 'T-_f', is_async))
+            ref[_join(*chain, '_f')] = 'T-_f'
         elif form[0] == 'addname':
             inner.add(_fn('f', 'T-f', is_async), name=form[1])
             ref[_join(*chain, form[1] or 'f')] = 'T-f'
